@@ -181,12 +181,21 @@ def run(ctx):
     ps = json.loads(ctx.run_worker(["c16-pipeline", "-in", r["out"], "-out", given]))
     if ps["written"] == 0 or ps["written"] + ps["rejected"] != r["distinct"]:
         raise core.Inconclusive("pipeline universe: %s for %d TLC states" % (ps, r["distinct"]))
+    # schemas as the real loaders produce them (JSON Schema, CUE): references to / in-place constants of every scalar kind the
+    # loaders yield, held in the Go types the loaders give them; judged like the pipeline's results (they carry their builders)
+    loaded = os.path.join(ctx.scratch, "c16-loaded.ndjson")
+    ls = json.loads(ctx.run_worker(["c16-loaded", "-out", loaded]))
+    if ls["written"] != 2:
+        gate(ctx, "loaded universe: the real loaders did not return the two schemas: %s" % ls)
+    with open(given, "a") as fo:
+        fo.write(open(loaded).read())
     r2 = ctx.run_tlc("BuildersGivenMC", "BuildersGivenMC.cfg", workers=1, timeout=900, files={"given.ndjson": given})
     tlcs.append(r2)
     s, nf = judge(ctx, r2["out"], cov)
     tlc_failed += nf
     merge(total, s)
-    per_universe["pipeline"] = {"cases": ps["cases"], "judged": s["cases"], "rejected_by_pipeline": ps["rejected"]}
+    per_universe["pipeline"] = {"cases": ps["cases"], "judged": s["cases"] - ls["written"], "rejected_by_pipeline": ps["rejected"]}
+    per_universe["loaded"] = {"cases": 2, "judged": ls["written"]}
     for k, v in ps["observations"].items():
         total["observations_for_other_properties"][k] = total["observations_for_other_properties"].get(k, 0) + v
     if not quick:
@@ -227,7 +236,9 @@ def run(ctx):
                 "Universe 'pipeline': 4 schema sets (one package; two packages; three packages with structs written in place in each, "
                 "declared in both orders) x 7 lists of final passes (prefix_objects_names, retype_field, omit, rename_object, omit_fields) x 5 "
                 "languages through the real codegen.Pipeline.ContextForLanguage: the builders it returns against the schemas it returns, "
-                "one builder per object (an object is identified by its own reference). "
+                "one builder per object (an object is identified by its own reference). Universe 'loaded': a JSON Schema and a CUE text "
+                "with required references to / in-place constants (number, integer, boolean, string; zero, false; through an alias) through "
+                "the real loaders, then the real FromAST: binds the value representations the other universes state to the loaders. "
                 "Non-trivial = judged (schema sets with a dangling object-level alias make FromAST panic and are out of scope: C05 guarantees "
                 "resolvable references)" % (
                     "" if quick else "; thorough adds 'chains' (reference chains of 1..4 hops over three packages, third loaded or not, hop names "
